@@ -243,8 +243,11 @@ def r3_labels(ctx):
     ifs = [n for n in walk_ordered(ph.node) if isinstance(n, ast.If) and "isinstance(self._array, np.ndarray)" in norm(n.test)]
     if len(ifs) != 1:
         raise AnalysisError("Photon.to_xarray: 2-D/3-D branch not recognised")
-    b2 = ast.Module(body=ifs[0].body, type_ignores=[])
-    b3 = ast.Module(body=ifs[0].orelse, type_ignores=[])
+    from sa.astutil import branch_blocks
+
+    t_blk, f_blk = branch_blocks(ifs[0])
+    b2 = ast.Module(body=t_blk, type_ignores=[])
+    b3 = ast.Module(body=f_blk, type_ignores=[])
     _coord_check(ctx, ph, b2, {"self.shape[0]", "self._num_rows"}, {"self.shape[1]", "self._num_cols"}, "coords2d")
     _coord_check(ctx, ph, b3, {"self._num_rows", "self.shape[0]"}, {"self._num_cols", "self.shape[1]"}, "coords3d")
     # final DataArray: dims ['y','x'] with coords y->rows var, x->cols var
